@@ -316,7 +316,7 @@ Contract(
         ("configs_untouched", lambda c: z3.And(config_unchanged(c, c.old(c.a.self, "json_config")),
                                                implies(V.truthy(c.a.config), config_unchanged(c, c.a.config))), ("C13",)),
     ],
-    modifies=[Ghost("call_log"), Ghost("env_calls"), Ghost("env_kind"), Ghost("env_val"), Ghost("bind_err")] +
+    modifies=[Ghost("call_log"), Ghost("env_calls"), Ghost("env_outcomes"), Ghost("env_kind"), Ghost("env_val"), Ghost("bind_err")] +
              [Fresh(f) for f in ("faultCode", "faultString", "rpcid", "config", "data")],
     props=("C05",),
 )
@@ -442,7 +442,7 @@ Contract(
             err_code(c.ret) == V.I(-32603)))(*_lookup_e(c)), ("C03", "C05")),
         ("configs_untouched", lambda c: config_unchanged(c, c.old(c.a.self, "json_config")), ("C13",)),
     ],
-    modifies=[Ghost("call_log"), Ghost("env_calls"), Ghost("env_kind"), Ghost("env_val"), Ghost("bind_err"),
+    modifies=[Ghost("call_log"), Ghost("env_calls"), Ghost("env_outcomes"), Ghost("env_kind"), Ghost("env_val"), Ghost("bind_err"),
               Ghost("pool_accepted"), Ghost("uuid_ctr"), Ghost("xlate_log"), Ghost("x_kind"), Ghost("x_val")] +
              [Fresh(f) for f in ("faultCode", "faultString", "rpcid", "config", "data", "id", "version") + _CFG_FIELDS] +
              [Fresh(f) for f in ("_logger", "_done_event", "_FutureResult__callback", "_FutureResult__extra")],
@@ -542,7 +542,7 @@ Contract(
         ("configs_untouched", lambda c: config_unchanged(c, c.old(c.a.self, "json_config")), ("C13",)),
     ],
     loops={0: LoopSpec(_batch_inv, "batch")},
-    modifies=[Ghost("call_log"), Ghost("env_calls"), Ghost("env_kind"), Ghost("env_val"), Ghost("bind_err"),
+    modifies=[Ghost("call_log"), Ghost("env_calls"), Ghost("env_outcomes"), Ghost("env_kind"), Ghost("env_val"), Ghost("bind_err"),
               Ghost("pool_accepted"), Ghost("uuid_ctr"), Ghost("xlate_log"), Ghost("x_kind"), Ghost("x_val")] +
              [Fresh(f) for f in ("faultCode", "faultString", "rpcid", "config", "data", "id", "version", "args") + _CFG_FIELDS] +
              [Fresh(f) for f in ("_logger", "_done_event", "_FutureResult__callback", "_FutureResult__extra")],
@@ -619,7 +619,7 @@ Contract(
             z3.And(c.gnew("imports") == c.gold("imports"), c.gnew("constructs") == c.gold("constructs"))), ("C08",)),
         ("configs_untouched", lambda c: config_unchanged(c, c.old(c.a.self, "json_config")), ("C13",)),
     ],
-    modifies=[Ghost("call_log"), Ghost("env_calls"), Ghost("env_kind"), Ghost("env_val"), Ghost("bind_err"),
+    modifies=[Ghost("call_log"), Ghost("env_calls"), Ghost("env_outcomes"), Ghost("env_kind"), Ghost("env_val"), Ghost("bind_err"),
               Ghost("pool_accepted"), Ghost("uuid_ctr"), Ghost("xlate_log"), Ghost("x_kind"), Ghost("x_val"), Ghost("last_dumped"), Ghost("imports"),
               Ghost("constructs"), Ghost("checked_name"), Ghost("bean_attrs")] +
              [Fresh(f) for f in ("faultCode", "faultString", "rpcid", "config", "data", "id", "version", "args") + _CFG_FIELDS] +
@@ -716,7 +716,7 @@ Contract(
     ],
     asserts=[("dispatcher_gets_the_decoding_of_the_whole_body", _MD, _whole_body_assert, ("C17",))],
     loops={0: LoopSpec(_read_inv, "read-loop")},
-    modifies=[Ghost(g) for g in ("out", "in_pos", "call_log", "env_calls", "env_kind", "env_val", "bind_err", "pool_accepted",
+    modifies=[Ghost(g) for g in ("out", "in_pos", "call_log", "env_calls", "env_outcomes", "env_kind", "env_val", "bind_err", "pool_accepted",
                                  "uuid_ctr", "xlate_log", "x_kind", "x_val", "last_dumped", "imports", "constructs",
                                  "checked_name", "bean_attrs")] +
              [Fresh(f) for f in ("faultCode", "faultString", "rpcid", "config", "data", "id", "version", "args") + _CFG_FIELDS] +
